@@ -1247,6 +1247,23 @@ def variant_edges(f, adt, variant, place_pred=None, cleanup=False):
     return out
 
 
+def guarded_by_variant(f, ve, loc):
+    """loc can only be reached (without coming back to the dispatch) when the enum tested by `ve` has the variant
+    of ve: decided on paths, so it also holds when the test result is kept in a flag (`let running = matches!(..);
+    if running {..}`) instead of branching at once.  ve: an entry of variant_edges()."""
+    si = ve['si']
+    here = f.term_loc(si['bb'])
+    names = list(si['variants'].keys()) + list(si.get('otherwise_variants', []))
+    mine = ve['raw']
+    for name in names:
+        ce = f.variant_edge(si, name)
+        if ce is None or ce[1] == mine[1]:
+            continue
+        if f.forward_paths_hit([Loc(ce[1], 0)], [loc], blockers=[here]) is not None:
+            return False
+    return f.forward_paths_hit([Loc(mine[1], 0)], [loc], blockers=[here]) is not None or f.edge_dominates(ve['edge'], loc)
+
+
 def result_edges(f, call_term):
     """(ok_edge, err_edge) for the Result produced by a call, matched either directly
     (`match r {Ok..,Err..}` / `if let`) or through `?` (Try::branch -> ControlFlow). None if not found."""
@@ -1353,30 +1370,58 @@ _BINOPS = {
 }
 
 
-def eval_with(e, subj, v):
+def eval_with(e, subj, v, bits=None):
     """Evaluate expression e to an int with every sub-expression satisfying subj(e) replaced by the
-    integer v; None when the value depends on anything else."""
+    integer v; None when the value depends on anything else.  With bits, values are kept modulo 2^bits
+    (two's complement) and is_negative() tests the sign bit."""
+    def norm(x):
+        return x if bits is None or x is None else x & ((1 << bits) - 1)
     if subj(e):
-        return v
+        return norm(v)
     k = e[0]
     if k == 'const':
         x = e[1]
         if isinstance(x, bool):
             return int(x)
-        return x if isinstance(x, int) else None
-    if k == 'bin' and e[1] in _BINOPS:
-        a = eval_with(e[2], subj, v)
-        b = eval_with(e[3], subj, v)
-        if a is None or b is None:
-            return None
-        return int(_BINOPS[e[1]](a, b))
+        return norm(x) if isinstance(x, int) else None
+    if k == 'cast' and bits is not None:
+        return eval_with(e[4], subj, v, bits)
+    if k == 'proj' and e[2] == ('.0',) and e[1][0] == 'bin':
+        return eval_with(e[1], subj, v, bits)
+    if k == 'bin':
+        op = e[1].replace('WithOverflow', '').replace('Unchecked', '')
+        if op in _BINOPS:
+            a = eval_with(e[2], subj, v, bits)
+            b = eval_with(e[3], subj, v, bits)
+            if a is None or b is None:
+                return None
+            if bits is not None and op in ('Lt', 'Le', 'Gt', 'Ge'):
+                return None
+            return norm(int(_BINOPS[op](a, b)))
+        if op in ('Shl', 'Shr') and bits is not None:
+            a = eval_with(e[2], subj, v, bits)
+            b = eval_with(e[3], subj, v, bits)
+            if a is None or b is None:
+                return None
+            return norm(a << b if op == 'Shl' else a >> b)
     if k == 'un' and e[1] == 'Not':
-        a = eval_with(e[2], subj, v)
-        return None if a is None else int(not a)
+        a = eval_with(e[2], subj, v, bits)
+        if a is None:
+            return None
+        if bits is not None and not (e[2][0] == 'bin' and e[2][1] in ('Eq', 'Ne', 'Lt', 'Le', 'Gt', 'Ge')) and not _is_boolish(e[2]):
+            return norm(~a)
+        return int(not a)
+    if k == 'call' and bits is not None and e[1].endswith('::is_negative') and e[2]:
+        a = eval_with(e[2][0], subj, v, bits)
+        return None if a is None else (a >> (bits - 1)) & 1
     return None
 
 
-def specialise_value(f, subj, v, eb=None):
+def _is_boolish(e):
+    return e[0] == 'call' and (e[1].endswith('::is_negative') or e[1].endswith('::is_positive'))
+
+
+def specialise_value(f, subj, v, eb=None, bits=None):
     """prune the CFG under `subject == v`: every switch whose discriminant is a function of the subject
     (and constants) alone keeps only the edge taken for v.  Used to ask "can a completion whose
     user_data is <v> reach ...", independent of whether the source writes a match arm, a range
@@ -1388,7 +1433,7 @@ def specialise_value(f, subj, v, eb=None):
         t = blk['term']
         if blk['cleanup'] or t['k'] != 'switch':
             continue
-        val = eval_with(eb.operand(t['discr']), subj, v)
+        val = eval_with(eb.operand(t['discr']), subj, v, bits)
         if val is None:
             continue
         vals = {int(x): tgt for x, tgt in t['targets']}
